@@ -18,6 +18,16 @@ RULE = ('case kinds: order = (table, backend) -> pool of every concept object re
         'and context_hash=None twins; from_objects = one call compared field by field with Spec (ext (int A), int A); '
         'setattr = one assignment attempt per field name; porder/pfrom = the same for PatternConcepts of all-IntervalPS '
         'MVContexts (miners: close_by_one, close_by_one_objectwise, close_by_one_objectwise_fbarray, sofia). '
+        'history/phistory = ONE context object: derive concepts, change its content through a public route (own setters; the '
+        'data setter / the handed-out storage of the contained BinTable or pattern structure; the aliased name lists; incl. '
+        'adler32-colliding tables / names and -1 <-> -2 edits that keep Python\'s hash), derive again (also in between), derive '
+        'from a fresh context with the final content; every concept is labelled with the adler32 identity of the content it '
+        'was derived from, computed by the harness from its own record (never asked from the object under test), and all '
+        'pairs across the phases are judged with those labels; each from_objects result against the closure in the content '
+        'of that moment. bigorder/bigporder = (H8) 64..595 objects in value groups whose cumulated sizes cross 64/65, '
+        '128/129, 512/520 (interordinal formal context / one IntervalPS column): every miner, the lattices, from_objects, '
+        'read_json and the constructor, each target extent listed descending / shuffled / rotated / ascending, antitone and '
+        'monotone; all ordered pairs. '
         'non-trivial = table/columns not constant (order, cross, porder) or non-empty selection on a mixed table '
         '(from_objects, pfrom) or any setattr case; distinct = distinct case content')
 EXHAUSTIVE = {
@@ -25,16 +35,23 @@ EXHAUSTIVE = {
              'and all triples of the pool; from_objects: all tables n,m<=3 x 3 backends x every ordered subset x (index|name) x '
              'is_extent; cross: all ordered pairs of distinct tables n,m<=2 plus renamed-objects variants; setattr: every '
              'field name x (FormalConcept from from_objects / miner / direct constructor, PatternConcept); porder/pfrom: all '
-             'one-column IntervalPS contexts with <=3 objects over interval ends {0,1,2}, every ordered subset',
+             'one-column IntervalPS contexts with <=3 objects over interval ends {0,1,2}, every ordered subset; history: all '
+             'tables n,m<=2 x 3 backends x 15 route scripts; phistory: all one-column contexts with <=2 objects x 16 route '
+             'scripts; bigorder/bigporder: 6 fixed group shapes (64, 65, 73, 129, 520, 595 objects) + 2 random ones, all '
+             'ordered pairs of a pool of 40-80 concepts each',
     'thorough': 'quick scope plus order/from_objects for all tables with n,m<=4, n*m<=12; porder/pfrom additionally all '
                 'two-column IntervalPS contexts with 2 objects over ends {0,1,2}'}
 EXPLANATION = ('the answers of ==, <=, < are pinned uniquely by the property (extent inclusion), so implementation != Spec is a '
                'property failure; Lean theorems Fca.C08.* prove model = Spec for all concepts with duplicate-free extents; '
                'hash(c) is compared with Python\'s hash of the model\'s hash key; the partial-order laws are re-checked by the '
-               'Lean law checker on the implementation\'s own matrices (all pairs, all triples)')
+               'Lean law checker on the implementation\'s own matrices (all pairs, all triples); Fca.C08.listing_invariant '
+               'proves that no answer depends on the listing order of either extent, for every size (so the large directed '
+               'cases are instances of one theorem, not of a second regime)')
 ASSUMPTIONS = ['concept extents are duplicate-free lists of valid object indexes (every miner and from_objects deliver that; '
                'the run asserts it for every pooled concept)',
-               '"different context" means different context_hash (zlib.adler32 collisions are outside the model)',
+               '"different context" means different context_hash (zlib.adler32 collisions are outside the model): in the '
+               'history streams two DIFFERENT contents whose renderings collide under adler32 are not judged against each other '
+               '(the unchanged library takes them for one context); everything else about them is judged',
                'from_objects receives duplicate-free in-range indexes or known names (unknown names, duplicates, '
                'is_monotone=True live in the malformed stream)',
                'PatternConcept fields are protected as public read-only properties; the private slots (_extent_i, ...) are '
@@ -47,7 +64,7 @@ TRUSTED = ['Python hash() of int tuples (the theorem is about the value handed t
 CHUNK = 400
 REQUESTS_NEED_IMPL = True
 
-OBJ = ['g%d' % i for i in range(24)]
+OBJ = ['g%d' % i for i in range(1100)]
 ATT = ['m%d' % i for i in range(96)]
 MINERS = ('close_by_one', 'close_by_one_objectwise', 'close_by_one_objectwise_fbarray', 'lindig_algorithm', 'sofia')
 PMINERS = ('close_by_one', 'close_by_one_objectwise', 'close_by_one_objectwise_fbarray', 'sofia')
@@ -143,11 +160,65 @@ def _history_scripts(rows):
         [['data', rows2], ['data', rows]],                         # net zero on the table
         [['objs', 'h'], ['attrs', 'b'], ['data', rows2]],
         [['none']],                                                # control: no mutation, everything comparable
+        # ---- every further public route to the content (own setters AND what contained objects expose) ----
+        [['data_inplace', n - 1, m - 1]],                          # one cell of the storage K.data.data hands out
+        [['data_inplace', 0, 0], ['derive'], ['data_inplace', 0, 0]],   # A -> B -> A with a derivation in between
+        [['data', rows2], ['derive'], ['data', rows]],
+        [['objs', 'h'], ['derive'], ['objs', 'g'], ['derive'], ['attrs', 'b']],
+        [['ctx_data', rows2]],                                     # `K.data = ...` (no setter: refused, content unchanged)
+        [['description', 'another description']],                  # a setter that does not touch the content
+        [['description', 'x'], ['data', rows3]],
     ]
 
 
-def _history_case(rows, be, stream, script, fo1, fo2):
-    return dict(kind='history', stream=stream, be=be, rows=rows, script=script, fo1=fo1, fo2=fo2)
+def _ref_formal(objs, attrs, rows):
+    """What the UNCHANGED FormalContext.hash_fixed() is for this content (the identity the library gives a context):
+    zlib.adler32 of str(object_names) + str(attribute_names) + str(data.to_list()), names being tuples"""
+    import zlib
+    return zlib.adler32((str(tuple(objs)) + str(tuple(attrs)) + str([[bool(v) for v in r] for r in rows])).encode())
+
+
+def _ref_mv(objs, attrs, cols):
+    """the same for an all-IntervalPS MVContext: names are the lists handed over, data = rows of float pairs"""
+    import zlib
+    n = len(cols[0])
+    data = [[(float(col[g][0]), float(col[g][1])) for col in cols] for g in range(n)]
+    return zlib.adler32((str(list(objs)) + str(list(attrs)) + str(data)).encode())
+
+
+def _collide_names(names):
+    """(H4) other names with the same adler32 wherever they are embedded ('bdb0' -> 'cbc0'); None if impossible"""
+    out = [G.adler_collide_name(x) for x in names]
+    if any(x is None for x in out) or len(set(out)) != len(out) or set(out) & set(names):
+        return None
+    return out
+
+
+def _history_scripts_h4(rows, objs0, attrs0):
+    """(H4) edits that change the content but keep zlib.adler32 of the rendering the library hashes.  Every script is
+    checked here: the contents really differ and really collide (else it is not emitted)."""
+    n, m = len(rows), len(rows[0])
+    out = []
+    ref0 = _ref_formal(objs0, attrs0, rows)
+    rowsc = G.adler_collide_rows(objs0, attrs0, rows, limit=5000) if n * m <= 12 else None
+    if rowsc is not None and rowsc != rows and _ref_formal(objs0, attrs0, rowsc) == ref0:
+        out.append([['data', rowsc, 'collide']])
+        out.append([['data', rowsc, 'collide'], ['derive'], ['data', rows]])
+    oc, ac = _collide_names(objs0), _collide_names(attrs0)
+    if oc is not None and _ref_formal(oc, attrs0, rows) == ref0:
+        out.append([['objs_names', oc, 'collide']])
+    if ac is not None and _ref_formal(objs0, ac, rows) == ref0:
+        out.append([['attrs_names', ac, 'collide']])
+    if oc is not None and ac is not None and rowsc is not None and _ref_formal(oc, ac, rowsc) == ref0:
+        out.append([['objs_names', oc, 'collide'], ['attrs_names', ac, 'collide'], ['data', rowsc, 'collide']])
+    return out
+
+
+def _history_case(rows, be, stream, script, fo1, fo2, objs0=None, attrs0=None):
+    c = dict(kind='history', stream=stream, be=be, rows=rows, script=script, fo1=fo1, fo2=fo2)
+    if objs0 is not None:
+        c['objs0'], c['attrs0'] = list(objs0), list(attrs0)
+    return c
 
 
 def _phistory_scripts(cols):
@@ -162,7 +233,63 @@ def _phistory_scripts(cols):
         [['objs', 'h'], ['objs', 'g']],
         [['ps_data', 0, col2], ['ps_data', 0, [list(v) for v in cols[0]]]],
         [['none']],
+        # ---- every further public route: setters of CONTAINED objects, containers the getters hand out ----
+        [['ps_data', len(cols) - 1, [[a - 1, b + 1] for a, b in cols[-1]]]],
+        [['ps_data', 0, col2], ['derive'], ['ps_data', 0, [list(v) for v in cols[0]]]],   # A -> B -> A
+        [['ps_data', 0, col3], ['derive'], ['objs', 'h']],
+        [['ps_data_inplace', 0, n - 1, [cols[0][n - 1][0] - 1, cols[0][n - 1][1] + 2]]],  # ps.data[g] = (a, b)
+        [['ps_item', 0, col2]],                                    # K.pattern_structures[0] = IntervalPS(...)
+        [['objs_inplace', 0, 'hh']],                               # K.object_names[0] = 'hh' (the list is aliased)
+        [['attrs_inplace', 0, 'bb']],
+        [['ps_name', 0, 'zz']],                                    # ps.name = ... (read-only: refused, nothing changes)
+        [['objs_inplace', n - 1, 'hh'], ['derive'], ['ps_item', 0, col3], ['derive'], ['attrs', 'b']],
     ]
+
+
+def _phistory_scripts_h4(cols, objs0, attrs0):
+    """(H4) many-valued edits that keep a hash a memo could be validated by: Python's hash() of the pattern structure /
+    the context (interval ends -1 <-> -2: hash(-1.0) == hash(-2.0)), and zlib.adler32 of the rendering (colliding
+    names; +1/-2/+1 on one-digit interval ends of three consecutive objects).  Each emitted script is checked here."""
+    n = len(cols[0])
+    out = []
+    ref0 = _ref_mv(objs0, attrs0, cols)
+    for j, col in enumerate(cols):
+        swapped = [[G.pyhash_collide_value(a) if G.pyhash_collide_value(a) is not None else a,
+                    G.pyhash_collide_value(b) if G.pyhash_collide_value(b) is not None else b] for a, b in col]
+        swapped = [[min(a, b), max(a, b)] for a, b in swapped]
+        if swapped != [list(v) for v in col] and \
+                hash(tuple((float(a), float(b)) for a, b in swapped)) == hash(tuple((float(a), float(b)) for a, b in col)):
+            out.append([['ps_data', j, swapped, 'pyhash']])
+            out.append([['ps_data_inplace', j, g, swapped[g], 'pyhash'] for g in range(n) if swapped[g] != list(col[g])][:1])
+            out.append([['ps_item', j, swapped, 'pyhash'], ['derive'], ['ps_data', j, [list(v) for v in col]]])
+            break
+    oc = _collide_names(objs0)
+    if oc is not None and _ref_mv(oc, attrs0, cols) == ref0:
+        out.append([['objs_names', oc, 'collide']])
+        out.append([['objs_inplace', 0, oc[0], 'collide']])
+    for j, col in enumerate(cols):                   # adler32-colliding column: (+1, -2, +1) on three equally spaced digits
+        done = False
+        for g in range(n - 2):
+            for e in (0, 1):
+                for sg in (1, -1):
+                    new = [list(v) for v in col]
+                    new[g][e] += sg
+                    new[g + 1][e] -= 2 * sg
+                    new[g + 2][e] += sg
+                    cols2 = [new if jj == j else [list(v) for v in cc] for jj, cc in enumerate(cols)]
+                    if all(0 <= a <= b <= 9 for a, b in new) and all(0 <= a <= b <= 9 for a, b in col) \
+                            and new != [list(v) for v in col] and _ref_mv(objs0, attrs0, cols2) == ref0:
+                        out.append([['ps_data', j, new, 'collide']])
+                        out.append([['ps_item', j, new, 'collide'], ['derive'], ['ps_data', j, [list(v) for v in col]]])
+                        done = True
+                        break
+                if done:
+                    break
+            if done:
+                break
+        if done:
+            break
+    return [s for s in out if s]
 
 
 def _cross_case(rows, rows2, be, stream, objs2=None):
@@ -241,6 +368,65 @@ def _malformed(rows, be, rng):
         yield dict(base, objs=objs, sel=sel, by_name=1, is_extent=rng.randint(0, 1))
 
 
+# (H8/H3) directed large cases.  Objects fall into value groups 0..G-1 (group sizes chosen so that the cumulated sizes
+# cross 64/65, 128/129, 512/520 and small groups of 1, 7, 8, 9, 16 objects sit next to huge ones); the formal context is
+# the interordinal scaling (attributes "v <= k", "v >= k"), the many-valued one a single IntervalPS column of the point
+# values: in both the concepts are exactly the value intervals [a, b] (plus the empty one), so supports 1 vs 64,
+# 8 vs 64, 8 vs 65, 16 vs 128, 8 vs 512, 64 vs 512 ... all occur, nested, disjoint and overlapping.  The objects of a
+# group are scattered over the index range (shuffled assignment), so a listing order matters.
+BIG_GROUPS = (
+    [1, 7, 56],                     # 64 objects: the top concept sits exactly on the threshold
+    [1, 7, 56, 1],                  # 65
+    [1, 7, 55, 1, 1, 8],            # 73: 63 / 64 / 65 cumulated, 8 disjoint
+    [8, 8, 48, 1, 63, 1],           # 129: 8, 16, 64, 65, 128, 129
+    [1, 7, 56, 1, 447, 8],          # 520: 1, 8, 64, 65, 512, 520
+    [9, 55, 8, 457, 64, 2],         # 595: 9 vs 64 (ratio just below 8), 72, 529, 593, 595; 64 disjoint from 529
+)
+
+
+def _big_vals(rng, groups):
+    vals = [v for v, k in enumerate(groups) for _ in range(k)]
+    rng.shuffle(vals)
+    return vals
+
+
+def _random_groups(rng):
+    s = rng.choice((1, 2, 7, 8, 9, 16, 17))
+    big = max(64, 8 * s) + rng.choice((-1, 0, 1))
+    return [s, big - s, rng.choice((1, 2)), rng.randint(1, 70), rng.choice((1, 8))]
+
+
+def _big_cases(rng, tier):
+    k = 0
+    lists = [list(g) for g in BIG_GROUPS] + [_random_groups(rng) for _ in range(2 if tier == 'quick' else 8)]
+    for groups in lists:
+        vals = _big_vals(rng, groups)
+        n = len(vals)
+        for variant in ('anti', 'mono'):
+            yield dict(kind='bigorder', stream='size-gated', be=BACKENDS[k % 3], vals=vals, variant=variant,
+                       seed=rng.randrange(1 << 30))
+            k += 1
+        yield dict(kind='bigporder', stream='size-gated-pattern', vals=_big_vals(rng, groups), seed=rng.randrange(1 << 30))
+        # from_objects on the same shapes: shuffled / repeated selections that reach beyond index 64, 128, 512
+        rows = _big_rows(vals)
+        objs, attrs = OBJ[:n], ATT[:len(rows[0])]
+        grp = [g for g in range(n) if vals[g] <= 1]
+        rng.shuffle(grp)
+        sels = [grp, [n - 1, 0, n - 1, 63 % n, 64 % n], rng.sample(range(n), min(n, 70))]
+        for j, sel in enumerate(sels):
+            for ie in ((0, 1) if len(set(sel)) == len(sel) else (0,)):
+                yield dict(kind='from_objects', stream='size-gated', be=BACKENDS[(k + j) % 3], rows=rows, objs=objs,
+                           attrs=attrs, sel=sel, by_name=(j + ie) % 2, is_extent=ie, is_monotone=0,
+                           argform=ARGFORMS[(k + j) % 5])
+                yield dict(kind='pfrom', stream='size-gated-pattern', cols=[[[v, v] for v in vals]], sel=sel,
+                           by_name=(j + ie + 1) % 2, is_extent=ie, is_monotone=0, argform=ARGFORMS[(k + j + 1) % 5])
+
+
+def _big_rows(vals):
+    G_ = max(vals) + 1
+    return [[int(v <= k) for k in range(G_)] + [int(v >= k) for k in range(G_)] for v in vals]
+
+
 def _corpus():
     d = os.path.join(os.path.dirname(os.path.dirname(os.path.dirname(os.path.abspath(__file__)))), 'corpus', 'C08')
     for p in sorted(glob.glob(os.path.join(d, '*.json'))):
@@ -253,7 +439,55 @@ def _corpus():
             continue
 
 
+def _h4_cases(rng, tier):
+    """(H1/H4) directed histories: hash-preserving edits (adler32-colliding tables / names, -1 <-> -2) through every
+    route, on contexts large enough for collisions to exist"""
+    cnt = 24 if tier == 'quick' else 120
+    for k in range(cnt):
+        n, m = rng.choice(((2, 3), (3, 3), (3, 4), (2, 4), (3, 2)))
+        rows = G.random_table(rng, n, m, nmin=n, mmin=m)
+        objs0, attrs0 = ['bdb%d' % i for i in range(n)], ['mdm%d' % j for j in range(m)]
+        for script in _history_scripts_h4(rows, objs0, attrs0):
+            yield _history_case(rows, BACKENDS[k % 3], 'history-h4', script,
+                                _fo_random(rng, n, 2) + [[list(range(n)), 0, 0], [[0], 1, 0]],
+                                _fo_random(rng, n, 2) + [[[0], 1, 0], [list(range(n))[::-1], 0, 0]], objs0, attrs0)
+    for k in range(cnt):
+        n, kk = rng.choice((3, 3, 4)), rng.choice((1, 1, 2))
+        lo = rng.choice((-2, 0))               # -2: ends in {-2..1} (Python-hash twins -1 / -2); 0: one-digit ends (adler32)
+        cols = []
+        for _ in range(kk):
+            col = []
+            for _g in range(n):
+                a = rng.randint(lo, lo + 3)
+                col.append([a, rng.randint(a, lo + 4)])
+            cols.append(col)
+        objs0, attrs0 = ['bdb%d' % i for i in range(n)], ATT[:kk]
+        for script in _phistory_scripts_h4(cols, objs0, attrs0):
+            yield dict(kind='phistory', stream='history-pattern-h4', cols=cols, script=script, objs0=objs0,
+                       fo1=_fo_random(rng, n, 2) + [[list(range(n)), 0, 0], [[0], 1, 0]],
+                       fo2=_fo_random(rng, n, 2) + [[[0], 1, 0], [list(range(n))[::-1], 0, 0]])
+
+
 def gen(tier, seed, boost=False):
+    """corpus and the frozen-field cases first; then the ordinary streams with the few expensive directed cases
+    (size-gated shapes, hash-preserving histories) spread evenly between them (they would otherwise fill one chunk)"""
+    rng2 = random.Random(seed * 7919 + 88)
+    directed = list(_big_cases(rng2, tier)) + list(_h4_cases(rng2, tier))
+    slow = [c for c in directed if c['kind'] in ('bigorder', 'bigporder')]
+    fast = [c for c in directed if c['kind'] not in ('bigorder', 'bigporder')]
+    k = 0
+    for c in _gen_base(tier, seed, boost):
+        yield c
+        k += 1
+        if k % 150 == 0 and slow:
+            yield slow.pop(0)
+        if k % 20 == 0 and fast:
+            yield fast.pop(0)
+    yield from slow
+    yield from fast
+
+
+def _gen_base(tier, seed, boost=False):
     rng = random.Random(seed * 1000003 + 808)
     yield from _corpus()
     yield from _setattr_cases()
@@ -279,7 +513,7 @@ def gen(tier, seed, boost=False):
                 fo1 = [[list(range(n1)), 0, 0], [[0], 1, 0], [[], 0, 0], [[n1 - 1], 0, 1]]
                 fo2 = [[[0], 0, 0], [list(range(n1))[::-1], 1, 0], [[], 1, 0], [[n1 - 1], 1, 1]]
                 yield _history_case(r1, be, 'history', script, fo1, fo2)
-    for k in range(120):
+    for k in range(180):
         rows = G.random_table(rng, 4, 4, nmin=2)
         n1 = len(rows)
         scripts = _history_scripts(rows)
@@ -301,7 +535,7 @@ def gen(tier, seed, boost=False):
                 yield dict(kind='phistory', stream='history-pattern', cols=cols, script=script,
                            fo1=[[list(range(n)), 0, 0], [[0], 1, 0], [[], 0, 0]],
                            fo2=[[[0], 0, 0], [list(range(n))[::-1], 1, 0], [[n - 1], 1, 1]])
-    for k in range(60):
+    for k in range(128):
         cols = _random_cols(rng, 4, 2)
         n = len(cols[0])
         scripts = _phistory_scripts(cols)
@@ -510,120 +744,341 @@ def _ffields(x):
 
 
 def _history_out(items, derived, pattern):
-    """pool of a history case: one representative per (phase, defining fields); `th` = hash_fixed() of the context
-    content the concept was derived from (the TRUE context identity), `h` = the context_hash the concept carries"""
+    """pool of a history case: one representative per (phase, defining fields).  Per concept: `h` = the context_hash it
+    carries; `cid` = which CONTENT (names + table, as recorded by the harness) it was derived from; `ref` = what the
+    unchanged library's hash_fixed() is for that content (adler32 of its rendering, computed here, independent of
+    every object of the library); `fh` = hash_fixed() of a FRESH context object built from that content."""
     keyf = _pkey if pattern else _fkey
-    tagged = [(src, c) for src, c, ph, th in items]
-    meta = {id(c): (ph, th) for src, c, ph, th in items}
+    tagged = [(src, c) for src, c, ph, ident in items]
+    meta = {id(c): (ph, ident) for src, c, ph, ident in items}
     pool, srcs, bad = _dedupe(tagged, lambda c: (meta[id(c)][0],) + keyf(c))
     out = _pool_out(pool, srcs, bad, pattern)
     for rec, c in zip(out['pool'], pool):
-        rec['phase'], rec['th'] = meta[id(c)]
+        rec['phase'], (rec['cid'], rec['ref'], rec['fh']) = meta[id(c)]
     out['derived'] = derived
     return out
 
 
+class _Contents:
+    """the distinct contents a history passes through: content -> (cid, ref, fh)"""
+
+    def __init__(self, fresh, ref):
+        self.seen, self.fresh, self.ref = {}, fresh, ref
+
+    def ident(self, st):
+        key = json.dumps(st, sort_keys=True)
+        if key not in self.seen:
+            self.seen[key] = (len(self.seen), int(self.ref(st)), int(self.fresh(st).hash_fixed()))
+        return self.seen[key]
+
+
+def _flip_cell(K, be, i, j, v):
+    """in-place edit of the storage `K.data.data` hands out (no setter of any object is involved)"""
+    d = K.data.data
+    if be == 'BinTableNumpy':
+        d[i, j] = bool(v)
+    elif be == 'BinTableBitarray':
+        from bitarray import frozenbitarray
+        row = [bool(x) for x in d[i]]
+        row[j] = bool(v)
+        d[i] = frozenbitarray(row)
+    else:
+        d[i][j] = bool(v)
+
+
 def _history_impl(c):
-    """(H1) one FormalContext OBJECT: derive concepts, change the context in place through its public setters, derive
-    again; finally derive from a freshly built context with the current content."""
+    """(H1/H4) one FormalContext OBJECT: derive concepts, change the content through a public route (own setters,
+    the setter / the storage of the contained BinTable), derive again (also at every ['derive'] step); finally derive
+    from a freshly built context with the final content."""
     from fcapy.context import FormalContext
     from fcapy.lattice.formal_concept import FormalConcept
+    be = c['be']
     rows = [list(r) for r in c['rows']]
     n, m = len(rows), len(rows[0])
-    st = dict(rows=rows, objs=OBJ[:n], attrs=ATT[:m])
-    K = FormalContext(data=[[bool(v) for v in r] for r in rows], object_names=list(st['objs']),
-                      attribute_names=list(st['attrs']), backend=c['be'])
-    items, derived = [], []
+    st = dict(rows=rows, objs=list(c.get('objs0') or OBJ[:n]), attrs=list(c.get('attrs0') or ATT[:m]))
+
+    def fresh(s):
+        return FormalContext(data=[[bool(v) for v in r] for r in s['rows']], object_names=list(s['objs']),
+                             attribute_names=list(s['attrs']), backend=be)
+    contents = _Contents(fresh, lambda s: _ref_formal(s['objs'], s['attrs'], s['rows']))
+    K = fresh(st)
+    items, derived, notes = [], [], []
 
     def derive(Kx, fo, phase, extra):
+        ident = contents.ident(st)
         first = None
         for sel, by_name, ie in fo:
             arg = [st['objs'][i] for i in sel] if by_name else list(sel)
             x = FormalConcept.from_objects(arg, Kx, is_extent=bool(ie))
             first = first or x
-            th = int(Kx.hash_fixed())
-            items.append((f'P{phase}:from_objects', x, phase, th))
-            derived.append(dict(phase=phase, sel=list(sel), by_name=by_name, is_extent=ie, h=th, ok=_ffields(x),
+            items.append((f'P{phase}:from_objects', x, phase, ident))
+            derived.append(dict(phase=phase, sel=list(sel), arg_order=list(arg), by_name=by_name, is_extent=ie, h=ident[2], ok=_ffields(x),
                                 rows=[list(r) for r in st['rows']], objs=list(st['objs']), attrs=list(st['attrs'])))
-        th = int(Kx.hash_fixed())
         for mn in extra:
             for x in _miner(mn)(Kx):
-                items.append((f'P{phase}:{mn}', x, phase, th))
+                items.append((f'P{phase}:{mn}', x, phase, ident))
         if first is not None:      # written down by hand with the context's own hash, as the library's tests do
             items.append((f'P{phase}:hand-built', FormalConcept(first.extent_i, first.extent, first.intent_i, first.intent,
-                                                                context_hash=Kx.hash_fixed()), phase, th))
+                                                                context_hash=Kx.hash_fixed()), phase, ident))
 
+    phase = 0
     derive(K, c['fo1'], 0, ['close_by_one'])
     for step in c['script']:
-        if step[0] == 'objs':
+        op = step[0]
+        if op == 'objs':
             st['objs'] = [step[1] + str(i) for i in range(n)]
             K.object_names = list(st['objs'])
-        elif step[0] == 'attrs':
+        elif op == 'attrs':
             st['attrs'] = [step[1] + str(j) for j in range(m)]
             K.attribute_names = list(st['attrs'])
-        elif step[0] == 'data':
+        elif op == 'objs_names':
+            st['objs'] = list(step[1])
+            K.object_names = list(st['objs'])
+        elif op == 'attrs_names':
+            st['attrs'] = list(step[1])
+            K.attribute_names = list(st['attrs'])
+        elif op == 'data':
             st['rows'] = [list(r) for r in step[1]]
             K.data.data = [[bool(v) for v in r] for r in st['rows']]
-    derive(K, c['fo2'], 1, ['lindig_algorithm', 'close_by_one_objectwise'])
-    K2 = FormalContext(data=[[bool(v) for v in r] for r in st['rows']], object_names=list(st['objs']),
-                       attribute_names=list(st['attrs']), backend=c['be'])
-    derive(K2, c['fo2'][:2], 2, [])
-    return _history_out(items, derived, False)
+        elif op == 'data_inplace':
+            i, j = step[1], step[2]
+            st['rows'][i][j] = 1 - st['rows'][i][j]
+            _flip_cell(K, be, i, j, st['rows'][i][j])
+        elif op == 'ctx_data':
+            try:
+                K.data = [[bool(v) for v in r] for r in step[1]]
+                st['rows'] = [list(r) for r in step[1]]
+                notes.append('ctx_data:accepted')
+            except AttributeError:
+                notes.append('ctx_data:refused')
+        elif op == 'description':
+            K.description = step[1]
+        elif op == 'derive':
+            phase += 1
+            derive(K, c['fo2'], phase, ['close_by_one_objectwise'])
+    phase += 1
+    derive(K, c['fo2'], phase, ['lindig_algorithm', 'close_by_one_objectwise'])
+    derive(fresh(st), c['fo2'][:2], phase + 1, [])
+    out = _history_out(items, derived, False)
+    out['notes'] = notes
+    return out
 
 
 def _phistory_impl(c):
-    """(H1) the same for one MVContext object with IntervalPS columns"""
-    from fcapy.mvcontext import PS
+    """(H1/H4) the same for one MVContext object with IntervalPS columns: own setters, the `data` setter of a contained
+    pattern structure, and the containers the getters hand out (object_names, pattern_structures, ps.data)"""
+    from fcapy.mvcontext import MVContext, PS
     from fcapy.lattice.pattern_concept import PatternConcept
     cols = [[list(v) for v in col] for col in c['cols']]
     n, k = len(cols[0]), len(cols)
-    st = dict(cols=cols, objs=OBJ[:n], attrs=ATT[:k])
-    K = _mvcontext(cols)
-    items, derived = [], []
+    st = dict(cols=cols, objs=list(c.get('objs0') or OBJ[:n]), attrs=ATT[:k])
+
+    def fresh(s):
+        return MVContext(data=[[tuple(s['cols'][j][g]) for j in range(k)] for g in range(n)],
+                         pattern_types={a: PS.IntervalPS for a in s['attrs']}, object_names=list(s['objs']),
+                         attribute_names=list(s['attrs']))
+    contents = _Contents(fresh, lambda s: _ref_mv(s['objs'], s['attrs'], s['cols']))
+    K = fresh(st)
+    items, derived, notes = [], [], []
 
     def derive(Kx, fo, phase, extra):
+        ident = contents.ident(st)
         first = None
         for sel, by_name, ie in fo:
             arg = [st['objs'][i] for i in sel] if by_name else list(sel)
             x = PatternConcept.from_objects(arg, Kx, is_extent=bool(ie))
             first = first or x
-            th = int(Kx.hash_fixed())
-            items.append((f'P{phase}:from_objects', x, phase, th))
+            items.append((f'P{phase}:from_objects', x, phase, ident))
             d = _pfields(x, Kx, k)
-            d.update(phase=phase, sel=list(sel), by_name=by_name, is_extent=ie, h=th,
+            d.update(phase=phase, sel=list(sel), by_name=by_name, is_extent=ie, h=ident[2],
                      cols=[[list(v) for v in col] for col in st['cols']], objs=list(st['objs']))
             derived.append(d)
-        th = int(Kx.hash_fixed())
         for mn in extra:
             for x in _miner(mn)(Kx):
-                items.append((f'P{phase}:{mn}', x, phase, th))
+                items.append((f'P{phase}:{mn}', x, phase, ident))
         if first is not None:
             items.append((f'P{phase}:hand-built',
                           PatternConcept(first.extent_i, first.extent, first.intent_i, first.intent, Kx.pattern_types,
-                                         Kx.attribute_names, context_hash=Kx.hash_fixed()), phase, th))
+                                         Kx.attribute_names, context_hash=Kx.hash_fixed()), phase, ident))
 
+    phase = 0
     derive(K, c['fo1'], 0, ['close_by_one'])
     for step in c['script']:
-        if step[0] == 'objs':
+        op = step[0]
+        if op == 'objs':
             st['objs'] = [step[1] + str(i) for i in range(n)]
             K.object_names = list(st['objs'])
-        elif step[0] == 'attrs':
+        elif op == 'objs_names':
+            st['objs'] = list(step[1])
+            K.object_names = list(st['objs'])
+        elif op == 'objs_inplace':
+            st['objs'][step[1]] = step[2]
+            K.object_names[step[1]] = step[2]
+        elif op == 'attrs':
             st['attrs'] = [step[1] + str(j) for j in range(k)]
             K.attribute_names = list(st['attrs'])
-        elif step[0] == 'ps_data':
+        elif op == 'attrs_inplace':
+            st['attrs'] = list(st['attrs'])
+            st['attrs'][step[1]] = step[2]
+            K.attribute_names[step[1]] = step[2]
+        elif op == 'ps_data':
             st['cols'][step[1]] = [list(v) for v in step[2]]
             K.pattern_structures[step[1]].data = [tuple(v) for v in step[2]]
-        elif step[0] == 'pattern_structures':
+        elif op == 'ps_data_inplace':
+            j, g, v = step[1], step[2], step[3]
+            st['cols'][j][g] = list(v)
+            K.pattern_structures[j].data[g] = (float(v[0]), float(v[1]))
+        elif op == 'ps_item':
+            st['cols'][step[1]] = [list(v) for v in step[2]]
+            K.pattern_structures[step[1]] = PS.IntervalPS([tuple(v) for v in step[2]],
+                                                          name=K.pattern_structures[step[1]].name)
+        elif op == 'ps_name':
+            try:
+                K.pattern_structures[step[1]].name = step[2]
+                notes.append('ps_name:accepted')
+            except AttributeError:
+                notes.append('ps_name:refused')
+        elif op == 'pattern_structures':
             st['cols'] = [[list(v) for v in col] for col in step[1]]
             K.pattern_structures = [PS.IntervalPS([tuple(v) for v in col], name=K.pattern_structures[j].name)
                                     for j, col in enumerate(st['cols'])]
-    derive(K, c['fo2'], 1, ['close_by_one_objectwise'])
-    from fcapy.mvcontext import MVContext
-    K2 = MVContext(data=[[tuple(st['cols'][j][g]) for j in range(k)] for g in range(n)],
-                   pattern_types={a: PS.IntervalPS for a in st['attrs']}, object_names=list(st['objs']),
-                   attribute_names=list(st['attrs']))
-    derive(K2, c['fo2'][:2], 2, [])
-    return _history_out(items, derived, True)
+        elif op == 'derive':
+            phase += 1
+            derive(K, c['fo2'], phase, ['sofia'])
+    phase += 1
+    derive(K, c['fo2'], phase, ['close_by_one_objectwise'])
+    derive(fresh(st), c['fo2'][:2], phase + 1, [])
+    out = _history_out(items, derived, True)
+    out['notes'] = notes
+    return out
+
+
+def _listings(rng, t):
+    """the listing orders of one object set: descending, two independent shuffles, a rotation (ascending runs)"""
+    t = sorted(t)
+    s1, s2 = list(t), list(t)
+    rng.shuffle(s1)
+    rng.shuffle(s2)
+    r = rng.randrange(len(t)) if t else 0
+    return dict(asc=t, desc=t[::-1], shuf=s1, shuf2=s2, rot=t[r:] + t[:r])
+
+
+def _big_targets(rng, vals):
+    """object sets (ascending) to be listed in every order: the value intervals on the thresholds, plus two sets that are
+    NOT closed (8 objects inside the largest proper interval; 7 inside + 1 outside) for the near-miss answers"""
+    G_ = max(vals) + 1
+    ivs = [(0, b) for b in range(G_)] + [(G_ - 1, G_ - 1)] + ([(1, 1), (1, G_ - 1)] if G_ > 2 else [])
+    out = []
+    for a, b in ivs:
+        t = [g for g, v in enumerate(vals) if a <= v <= b]
+        if t and t not in out:
+            out.append(t)
+    big = [g for g, v in enumerate(vals) if v <= G_ - 2]
+    rest = [g for g, v in enumerate(vals) if v > G_ - 2]
+    if len(big) >= 8 and rest:
+        inside = rng.sample(big, 8)
+        out.append(sorted(inside))
+        out.append(sorted(inside[:7] + [rng.choice(rest)]))
+    return out
+
+
+def _bigorder_impl(c):
+    """(H8/H3) one large FormalContext; every way the library produces or accepts a concept, with the extent listed in
+    every order; all of ==, !=, <=, <, hash on all ordered pairs"""
+    from fcapy.context import FormalContext
+    from fcapy.lattice.formal_concept import FormalConcept
+    from fcapy.lattice import ConceptLattice
+    rng = random.Random(c['seed'])
+    vals = c['vals']
+    n = len(vals)
+    rows = _big_rows(vals)
+    names, attrs = OBJ[:n], ATT[:len(rows[0])]
+    K = FormalContext(data=[[bool(v) for v in r] for r in rows], object_names=list(names), attribute_names=list(attrs),
+                      backend=c['be'])
+    h = K.hash_fixed()
+    mono = c['variant'] == 'mono'
+    skip = set(c.get('drop', ()))
+    items = []
+
+    def add(src, x):
+        if src.split(':')[0] not in skip:
+            items.append((src, x))
+
+    def js(order, intent_i, is_mono):
+        return json.dumps({'Ext': {'Inds': list(order), 'Names': [names[g] for g in order], 'Count': len(order)},
+                           'Int': {'Inds': list(intent_i), 'Names': [attrs[j] for j in intent_i], 'Count': len(intent_i)},
+                           'Supp': len(order), 'Context_Hash': h, 'Monotone': is_mono})
+
+    if not mono:
+        for mn in MINERS:
+            for x in _miner(mn)(K):
+                add(mn, x)
+        for x in ConceptLattice.from_context(K):
+            add('lattice', x)
+        for x in ConceptLattice.from_context(K, algo='CbO'):
+            add('lattice-cbo', x)
+    else:
+        for x in ConceptLattice.from_context(K, is_monotone=True):
+            add('lattice-monotone', x)
+    for t in _big_targets(rng, vals):
+        ls = _listings(rng, t)
+        made = [('from_objects:is_extent:desc', FormalConcept.from_objects(ls['desc'], K, is_extent=True)),
+                ('from_objects:is_extent:shuffled',
+                 FormalConcept.from_objects([names[g] for g in ls['shuf']], K, is_extent=True)),
+                ('from_objects:closure-of-shuffled', FormalConcept.from_objects(ls['shuf2'], K))]
+        intent_i = made[0][1].intent_i
+        made.append(('read_json:shuffled', FormalConcept.read_json(json_data=js(ls['shuf2'], intent_i, False))))
+        made.append(('read_json:rewritten', FormalConcept.read_json(json_data=made[1][1].write_json(names, attrs))))
+        made.append(('direct:rotated', FormalConcept(tuple(ls['rot']), tuple(names[g] for g in ls['rot']), tuple(intent_i),
+                                                     tuple(attrs[j] for j in intent_i), context_hash=h)))
+        if not mono:
+            for src, x in made:
+                add(src, x)
+        else:
+            for src, x in made:
+                if src.startswith('read_json:shuffled'):
+                    add(src + ':monotone', FormalConcept.read_json(json_data=js(x.extent_i, x.intent_i, True)))
+                else:
+                    add(src + ':monotone', FormalConcept(x.extent_i, x.extent, x.intent_i, x.intent,
+                                                         context_hash=x.context_hash, is_monotone=True))
+            if len(items) < 12:
+                add('from_objects:antitone', made[0][1])          # a few antitone ones: must be refused
+    return _pool_out(*_dedupe(items, _fkey), False)
+
+
+def _bigporder_impl(c):
+    """(H8/H3) the same for PatternConcepts of a large one-column IntervalPS context"""
+    from fcapy.lattice.pattern_concept import PatternConcept
+    rng = random.Random(c['seed'])
+    vals = c['vals']
+    n = len(vals)
+    K = _mvcontext([[[v, v] for v in vals]])
+    names = list(K.object_names)
+    h = K.hash_fixed()
+    skip = set(c.get('drop', ()))
+    items = []
+
+    def add(src, x):
+        if src.split(':')[0] not in skip:
+            items.append((src, x))
+
+    for mn in PMINERS:
+        for x in _miner(mn)(K):
+            add(mn, x)
+    for t in _big_targets(rng, vals):
+        ls = _listings(rng, t)
+        a = PatternConcept.from_objects(ls['desc'], K, is_extent=True)
+        b = PatternConcept.from_objects([names[g] for g in ls['shuf']], K, is_extent=True)
+        add('from_objects:is_extent:desc', a)
+        add('from_objects:is_extent:shuffled', b)
+        add('from_objects:closure-of-shuffled', PatternConcept.from_objects(ls['shuf2'], K))
+        add('read_json:as-written', PatternConcept.read_json(json_data=b.write_json()))
+        d = json.loads(a.write_json())
+        d['Ext']['Inds'], d['Ext']['Names'] = list(ls['shuf2']), [names[g] for g in ls['shuf2']]
+        add('read_json:shuffled', PatternConcept.read_json(json_data=json.dumps(d)))
+        add('direct:rotated', PatternConcept(tuple(ls['rot']), tuple(names[g] for g in ls['rot']), a.intent_i, a.intent,
+                                             K.pattern_types, K.attribute_names, context_hash=h))
+    return _pool_out(*_dedupe(items, _pkey), True)
 
 
 def _num(x):
@@ -746,6 +1201,10 @@ def impl(c):
             return {'h': h, 'arg_order': order, 'err': exc_name(e)}
     if kind == 'history':
         return _history_impl(c)
+    if kind == 'bigorder':
+        return _bigorder_impl(c)
+    if kind == 'bigporder':
+        return _bigporder_impl(c)
     if kind == 'phistory':
         return _phistory_impl(c)
     raise ValueError('unknown case kind ' + str(kind))
@@ -789,19 +1248,20 @@ def _argobj(c, names):
 
 def requests(c, io):
     kind = c['kind']
-    if kind in ('order', 'cross', 'porder'):
+    if kind in ('order', 'cross', 'porder', 'bigorder', 'bigporder'):
         if 'pool' not in io:
             return []
-        return [dict(op='C08.cmp', kind='pattern' if kind == 'porder' else 'formal',
+        return [dict(op='C08.cmp', kind='pattern' if kind in ('porder', 'bigporder') else 'formal',
                      pool=[dict(e=p['e'], h=p['h'], m=p['m']) for p in io['pool']],
                      impl_le=io['le'], impl_lt=io['lt'], impl_eq=io['eq'],
                      impl_hash=[h if isinstance(h, int) else 0 for h in io['hash']])]
     if kind in ('history', 'phistory'):
         if 'pool' not in io:
             return []
-        # the context a concept belongs to is the CONTENT it was derived from: the spec is computed with the true hash
+        # the context a concept belongs to is the CONTENT it was derived from: the spec is computed with the identity
+        # the unchanged library gives that content (`ref`), never with what the object under test says
         reqs = [dict(op='C08.cmp', kind='pattern' if kind == 'phistory' else 'formal',
-                     pool=[dict(e=p['e'], h=p['th'], m=p['m']) for p in io['pool']],
+                     pool=[dict(e=p['e'], h=p['ref'], m=p['m']) for p in io['pool']],
                      impl_le=io['le'], impl_lt=io['lt'], impl_eq=io['eq'],
                      impl_hash=[h if isinstance(h, int) else 0 for h in io['hash']])]
         for d in io['derived']:
@@ -837,7 +1297,9 @@ def _bad(kind, cat, detail):
     return dict(ok=False, kind=kind, cat=cat, detail=detail)
 
 
-def _judge_cmp(c, io, r, pattern):
+def _judge_cmp(c, io, r, pattern, skip=frozenset()):
+    """`skip`: index pairs outside the property (two different contents with a genuine adler32 collision: the unchanged
+    library itself takes them for one context, CLASSES.md H4b)"""
     pool = io['pool']
     n = len(pool)
     if n == 0:
@@ -862,6 +1324,8 @@ def _judge_cmp(c, io, r, pattern):
     for nm in ('eq', 'ne', 'le', 'lt'):
         for i in range(n):
             for j in range(n):
+                if (i, j) in skip:
+                    continue
                 iv = io[nm][i][j]
                 sv = r['spec_eq' if nm == 'ne' else 'spec_' + nm][i][j]
                 if sv != 'refused' and nm == 'ne':
@@ -881,7 +1345,7 @@ def _judge_cmp(c, io, r, pattern):
     for nm in ('eq', 'ne', 'le', 'lt'):
         for i in range(n):
             for j in range(n):
-                if io[nm][i][j] != r[nm][i][j]:
+                if (i, j) not in skip and io[nm][i][j] != r[nm][i][j]:
                     return _bad('correspondence', f'{nm}-error-class',
                                 f'{desc(i)} {opname[nm]} {desc(j)} raised {io[nm][i][j]}, model raises {r[nm][i][j]}')
     if r.get('laws'):
@@ -973,25 +1437,36 @@ def _judge_pfrom(cols, objs, arg_order, sel, is_extent, io, r):
     return dict(ok=True)
 
 
+def _script_text(c):
+    return ' ; '.join(str(st[0]) + (f'[{st[-1]}]' if st[-1] in ('collide', 'pyhash') else '') for st in c['script'])
+
+
 def _judge_history(c, io, rep):
-    """(H1) concepts derived from one context OBJECT before / after in-place public mutations, and from a fresh context
-    with the final content.  Which context a concept belongs to is decided by the content it was derived from
-    (`th` = hash_fixed() at derivation time): same content -> ordered by extent inclusion, different -> refused."""
+    """(H1/H4) concepts derived from one context OBJECT before / between / after public mutations of its content, and
+    from a fresh context with the final content.  Which context a concept belongs to is decided by the CONTENT it was
+    derived from, identified the way the unchanged library identifies a context (`ref` = adler32 of the rendering of
+    names + table, computed by the harness from its own record of the content): same content -> ordered by extent
+    inclusion, different identity -> refused.  Two DIFFERENT contents with the same adler32 are taken for one context by
+    the unchanged library itself: such pairs are outside the property and are not judged (H4b)."""
     pattern = c['kind'] == 'phistory'
     if not rep:
         return _bad('property', 'pool-failed', f'the history could not be executed: {io}')
-    script = ' ; '.join(str(st[0]) for st in c['script'])
-    io2 = dict(io, pool=[dict(p, h=p['th'], src=f'{p["src"]}') for p in io['pool']])
-    v = _judge_cmp(c, io2, rep[0], pattern)
+    script = _script_text(c)
+    pool = io['pool']
+    io2 = dict(io, pool=[dict(p, h=p['ref']) for p in pool])
+    skip = frozenset((i, j) for i, p in enumerate(pool) for j, q in enumerate(pool)
+                     if p['cid'] != q['cid'] and p['ref'] == q['ref'])
+    v = _judge_cmp(c, io2, rep[0], pattern, skip)
     if not v['ok'] and v['kind'] == 'property':
-        v['detail'] = (f'history [derive (P0); {script}; derive (P1); fresh context with the final content (P2)], @ = hash_fixed() '
-                       f'of the content the concept was derived from: ' + v['detail'])
+        v['detail'] = (f'history [derive (P0); {script}; derive; fresh context with the final content (last phase)], @ = '
+                       f'adler32 identity of the content the concept was derived from: ' + v['detail'])
         return v
-    for p in io['pool']:
-        if p['h'] != p['th']:
+    for p in pool:
+        if p['h'] != p['fh']:
             return _bad('property', 'stale-context-hash',
-                        f'history [{script}]: {p["src"]}{p["e"]} carries context_hash {p["h"]} but was derived from a context '
-                        f'whose hash_fixed() is {p["th"]}')
+                        f'history [{script}]: {p["src"]}{p["e"]} carries context_hash {p["h"]}, but a fresh context with the '
+                        f'very content it was derived from has hash_fixed() = {p["fh"]}: concepts of one context would '
+                        f'refuse each other')
     for d, r in zip(io['derived'], rep[1:]):
         if pattern:
             w = _judge_pfrom(d['cols'], d['objs'], d['sel'], d['sel'], d['is_extent'], d, r)
@@ -1000,15 +1475,22 @@ def _judge_history(c, io, rep):
         if not w['ok']:
             w['detail'] = f'history [{script}], phase {d["phase"]}, from_objects({d["sel"]}): ' + w['detail']
             return w
+    if not v['ok']:
+        return v
+    for p in pool:
+        if p['fh'] != p['ref']:
+            return _bad('correspondence', 'hash-formula',
+                        f'hash_fixed() of a fresh context is {p["fh"]}; adler32 of str(object_names) + str(attribute_names) + '
+                        f'str(data) of its content is {p["ref"]}')
     return v
 
 
 def judge(c, io, rep):
     kind = c['kind']
-    if kind in ('order', 'cross', 'porder'):
+    if kind in ('order', 'cross', 'porder', 'bigorder', 'bigporder'):
         if not rep:
             return _bad('property', 'pool-failed', f'building the pool failed: {io}')
-        return _judge_cmp(c, io, rep[0], kind == 'porder')
+        return _judge_cmp(c, io, rep[0], kind in ('porder', 'bigporder'))
     if kind in ('history', 'phistory'):
         return _judge_history(c, io, rep)
     r = rep[0]
@@ -1058,6 +1540,8 @@ def nontrivial(c):
         return any(len({tuple(v) for v in col}) > 1 for col in c['cols'])
     if k == 'from_objects':
         return G.is_mixed(c['rows']) and len(c['sel']) > 0
+    if k in ('bigorder', 'bigporder'):
+        return max(c['vals']) > 0
     if k in ('porder', 'pfrom'):
         distinct = any(len({tuple(v) for v in col}) > 1 for col in c['cols'])
         return distinct and (k == 'porder' or len(c['sel']) > 0)
@@ -1072,8 +1556,31 @@ def branch(c, io, rep):
     out = [c['stream'], 'kind:' + c['kind']]
     k = c['kind']
     if k in ('history', 'phistory'):
-        out.append('script:' + '+'.join(st[0] for st in c['script']))
-    if k in ('order', 'cross', 'porder', 'history', 'phistory') and 'pool' in io:
+        out.append('script:' + '+'.join(st[0] + (':' + st[-1] if st[-1] in ('collide', 'pyhash') else '') for st in c['script']))
+        for nt in io.get('notes', ()):
+            out.append('route:' + nt)
+        if 'pool' in io:
+            if any(p['cid'] != q['cid'] and p['ref'] == q['ref'] for p in io['pool'] for q in io['pool']):
+                out.append('genuine-adler32-collision-pairs(not judged)')
+            if len({p['cid'] for p in io['pool']}) > 1:
+                out.append('contents:%d' % len({p['cid'] for p in io['pool']}))
+    if k in ('bigorder', 'bigporder'):
+        out.append('objects:%d' % len(c['vals']))
+        if k == 'bigorder':
+            out.append('variant:' + c['variant'])
+        if 'pool' in io:
+            pool = io['pool']
+            gated = [(p, q) for p in pool for q in pool if len(q['e']) >= 64 and 8 * len(p['e']) <= len(q['e'])]
+            if gated:
+                out.append('pairs:support>=64-and-ratio>=8')
+            if any(q['e'] != sorted(q['e']) for p, q in gated):
+                out.append('pairs:...with-unsorted-greater')
+            if any(p['e'] != sorted(p['e']) for p, q in gated):
+                out.append('pairs:...with-unsorted-lesser')
+            if any(p is not q and sorted(p['e']) == sorted(q['e']) and p['e'] != q['e'] and len(p['e']) >= 64
+                   for p in pool for q in pool):
+                out.append('pairs:same-set-other-listing>=64')
+    if k in ('order', 'cross', 'porder', 'history', 'phistory', 'bigorder', 'bigporder') and 'pool' in io:
         pool = io['pool']
         n = len(pool)
         out.append('pool-size:%s' % ('<=4' if n <= 4 else '<=16' if n <= 16 else '<=64' if n <= 64 else '>64'))
@@ -1091,9 +1598,13 @@ def branch(c, io, rep):
             out.append('strict-pairs')
         if any(p['m'] for p in pool):
             out.append('monotone-in-pool')
-        for s in {x.split(':')[1 if x[:3] in ('K1:', 'K2:', 'P0:', 'P1:', 'P2:') else 0] for p in pool for x in p['srcs']}:
+        for s in {x.split(':')[1 if (x[:3] in ('K1:', 'K2:') or (x[0] == 'P' and x[1].isdigit())) else 0]
+                  for p in pool for x in p['srcs']}:
             out.append('src:' + s)
-        if k not in ('porder', 'phistory'):
+        if k in ('bigorder', 'bigporder'):
+            for s in {x for p in pool for x in p['srcs'] if ':' in x}:
+                out.append('listing:' + s)
+        if k not in ('porder', 'phistory', 'bigporder'):
             out.append('be:' + c['be'])
     elif k in ('from_objects', 'pfrom'):
         out.append(('name' if c.get('by_name') else 'index') + (':is_extent' if c['is_extent'] else ''))
@@ -1122,6 +1633,14 @@ def _remap(sel, i):
 
 def shrink(c):
     k = c['kind']
+    if k in ('bigorder', 'bigporder'):
+        srcs = (list(MINERS) + ['lattice', 'lattice-cbo', 'lattice-monotone'] if k == 'bigorder' else list(PMINERS)) + \
+            ['from_objects', 'read_json', 'direct']
+        drop = list(c.get('drop', ()))
+        for sname in srcs:
+            if sname not in drop:
+                yield dict(c, drop=drop + [sname])
+        return
     if k in ('history', 'phistory'):
         if len(c['script']) > 1:
             for i in range(len(c['script'])):
@@ -1133,7 +1652,7 @@ def shrink(c):
                     d = dict(c)
                     d[fk] = fo[:i] + fo[i + 1:]
                     yield d
-        if k == 'history' and not any(st[0] == 'data' for st in c['script']):
+        if k == 'history' and not c.get('objs0') and all(st[0] in ('objs', 'attrs', 'none', 'description', 'derive') for st in c['script']):
             rows = c['rows']
             n, m = len(rows), len(rows[0])
             if n > 1:
